@@ -269,6 +269,22 @@ func c06Sess(f []string) string {
 			s.extractIPFromAttributes()
 			c06Registry(s, ral, rrs)
 			s.startNCP()
+		case ev[0] == 'S':
+			// answer to our request with an identifier that is not our last one
+			var sid uint8 = 200
+			if lastReq != nil {
+				sid = lastReq.id + 1
+			}
+			code := map[byte]uint8{'a': ppp.ConfAck, 'n': ppp.ConfNak, 'j': ppp.ConfRej}[ev[1]]
+			s.ipcp.FSM().Input(code, sid, c06Bytes(ev[2:]))
+		case ev[0] == 't':
+			tid, _ := strconv.Atoi(ev[1:])
+			s.ipcp.FSM().Input(ppp.TermReq, uint8(tid), nil)
+		case ev == "o":
+			// the restart timer expires while Stopping (after the subscriber's Terminate-Request)
+			if s.ipcp.FSM().State() == ppp.Stopping {
+				s.ipcp.FSM().Timeout()
+			}
 		case ev[0] == 'q':
 			i := strings.IndexByte(ev, '.')
 			id, _ := strconv.Atoi(ev[1:i])
